@@ -22,7 +22,7 @@ import (
 //   - write a structural dump (every scalar reachable, nil == empty for
 //     slices and maps, no addresses),
 //   - collect the memory regions the graph owns (pointees, slice backing
-//     arrays within len, big integer words, map identities),
+//     arrays up to cap, big integer words, map identities),
 //   - mutate every mutable leaf in place (scalars, bytes, big integer words,
 //     map entries) and every pointer-like slot (pointer, slice, map, interface
 //     stored in a struct field, slice element or array element).
@@ -149,8 +149,8 @@ func (w *walker) bigInt(x *big.Int, path string) {
 		}
 		w.line(path, "big:"+sb.String())
 	}
-	if len(bits) > 0 {
-		w.region(uintptr(unsafe.Pointer(&bits[0])), uintptr(len(bits))*unsafe.Sizeof(big.Word(0)), "big-integer words", path)
+	if c := cap(bits); c > 0 {
+		w.region(uintptr(unsafe.Pointer(unsafe.SliceData(bits))), uintptr(c)*unsafe.Sizeof(big.Word(0)), "big-integer words", path)
 	}
 	if w.mutate {
 		if len(bits) > 0 {
@@ -250,21 +250,25 @@ func (w *walker) walk(v reflect.Value, path string) {
 		}
 	case reflect.Slice:
 		n := v.Len()
+		// the backing array up to cap: memory beyond len is reachable through
+		// append / reslicing.  cap 0 (nil, or the runtime's shared zero-size
+		// base) owns nothing.
+		if c := v.Cap(); c > 0 {
+			w.region(v.Pointer(), uintptr(c)*t.Elem().Size(), "backing array of "+t.String(), path)
+		}
 		if n == 0 { // nil and empty are the same value for every clone function
 			w.line(path, "len0")
 			w.slot(v)
 			return
 		}
 		p := v.Pointer()
-		es := t.Elem().Size()
-		w.region(p, uintptr(n)*es, "backing array of "+t.String(), path)
 		if !w.enter(p, n, t) {
 			w.line(path, "<visited>")
 			w.slot(v)
 			return
 		}
 		if t.Elem().Kind() == reflect.Uint8 {
-			w.bytes(unsafe.Slice((*byte)(unsafe.Pointer(p)), n), path)
+			w.bytes(unsafe.Slice((*byte)(v.UnsafePointer()), n), path)
 		} else {
 			w.line(path, "len"+strconv.Itoa(n))
 			for i := 0; i < n; i++ {
